@@ -1634,6 +1634,10 @@ class ForAll(BinaryOperator):
 
         var_val_index = 0
 
+        # the universal expression and the condition can be used by other queries as well (a condition object shared with
+        # a plain query): they ask whoever evaluates them, not the parent they were given last, what to keep of their rows.
+        self.variable._eval_parent_ = self
+        self.condition._eval_parent_ = self
         for var_val in self.variable._evaluate_as_value_(sources):
             ctx = {**sources, **var_val}
             current = []
